@@ -43,15 +43,16 @@ def chan_exhaustive(ctx):
 
 def chan_replay(ctx):
     """Instances whose whole graph is printed and replayed."""
-    out = [
-        # three-unit frames: short / nearly full / full last frames, up to 2 full frames per write
-        ("chan_a", {"Tag": 2, "MaxPT": 3, "MaxSent": 6, "MaxWrite": 6, "Bufs": S(range(1, 7)),
+    t = ctx.tier == "thorough"
+    return [
+        # three-unit frames: short / nearly full / full last frames, two frames per write, every fault kind,
+        # every short-read regime
+        ("chan_a", {"Tag": 2, "MaxPT": 3, "MaxSent": 6 if t else 5, "MaxWrite": 6 if t else 5, "Bufs": S(range(1, 7)),
                     "Shorts": S([0, 1, 2]), "Faults": ALL_FAULTS, "MaxFaults": 1}),
-        # two-unit frames: payloads of more than three frames (3 * MaxPT + 1), zero-length reads
+        # two-unit frames: payloads of more than three frames (3 * MaxPT + 1 in one write), zero-length reads
         ("chan_b", {"Tag": 2, "MaxPT": 2, "MaxSent": 7, "MaxWrite": 7, "Bufs": S([0, 1, 2, 4, 5]),
-                    "Shorts": S([0, 2]), "Faults": '{"flip", "drop", "dup", "swap"}', "MaxFaults": 1}),
+                    "Shorts": S([0, 2]) if t else S([0]), "Faults": '{"flip", "drop", "dup", "swap"}', "MaxFaults": 1}),
     ]
-    return out
 
 
 LAYERS = {
@@ -63,13 +64,19 @@ LAYERS = {
                 {"PeekSize": 3, "MaxSent": 6, "MaxWrite": 4, "Bufs": S([0, 1, 2, 3, 4]), "Shorts": S([0, 1, 2])},
                 {"PeekSize": 3, "MaxSent": 8, "MaxWrite": 5, "Bufs": S([0, 1, 2, 3, 4, 5]), "Shorts": S([0, 1, 2])}),
     "mux": ("C02_MCMux", "C02_MCMux.cfg",
-            {"Streams": S([1, 2]), "MaxSent": 2, "MaxWrite": 2, "MaxMsg": 1, "MaxTotal": 2, "Bufs": S([1, 2])},
-            {"Streams": S([1, 2]), "MaxSent": 2, "MaxWrite": 2, "MaxMsg": 1, "MaxTotal": 3, "Bufs": S([1, 2])}),
+            {"Streams": S([1, 2]), "MaxSent": 2, "MaxWrite": 2, "MaxMsg": 1, "MaxTotal": 2, "MaxClose": 2, "Bufs": S([1, 2])},
+            {"Streams": S([1, 2]), "MaxSent": 2, "MaxWrite": 2, "MaxMsg": 1, "MaxTotal": 3, "MaxClose": 2, "Bufs": S([1, 2])}),
     "lazy": ("C02_MCLazyMS", "C02_MCLazyMS.cfg",
              {"MaxSent": 2, "MaxWrite": 2, "Bufs": S([1, 2])},
              {"MaxSent": 3, "MaxWrite": 2, "Bufs": S([1, 2])}),
 }
-MUX_EXHAUSTIVE = {"Streams": S([1, 2]), "MaxSent": 2, "MaxWrite": 2, "MaxMsg": 1, "MaxTotal": 4, "Bufs": S([1, 2])}
+# second mux replay instance (thorough): every channel may be half-closed
+MUX_B = {"Streams": S([1, 2]), "MaxSent": 2, "MaxWrite": 2, "MaxMsg": 1, "MaxTotal": 2, "MaxClose": 4, "Bufs": S([1, 2])}
+
+
+def mux_exhaustive(ctx):
+    return {"Streams": S([1, 2]), "MaxSent": 2, "MaxWrite": 2, "MaxMsg": 1, "MaxTotal": 4 if ctx.tier == "thorough" else 3,
+            "MaxClose": 4, "Bufs": S([1, 2])}
 
 
 # ------------------------------------------------------------------------------------------------
@@ -101,11 +108,106 @@ def _graph(args):
     if g.n_edges() == 0:
         raise MachineryError("no edges printed for " + name)
     stats = _edge_stats(g)
-    walks = g.covering_walks(seed=ctx.seed, max_len=max_len, limit_edges=limit)
+    walks = _covering_walks(g, ctx.seed, max_len)
     steps = sum(len(w["steps"]) for w in walks)
     graph.write_behaviours(os.path.join(beh_dir, name + ".jsonl"), walks,
                            {"name": name, "conf": conf[0], "edges": g.n_edges(), "states": g.n_states()})
     return name, r.distinct, r.generated, g.n_edges(), len(walks), steps, stats, r.wall
+
+
+def _covering_walks(g, seed, max_len, budget=400):
+    """Walks from the initial state that together traverse every edge at least once.  Same scheme as
+    lib/graph.covering_walks (BFS-tree prefix, then greedy through uncovered edges with a bounded
+    look-ahead) but SHALLOW states first: the channel graphs are almost acyclic (payload and delivery
+    only grow), so a walk that starts its uncovered stretch near the root runs through fresh
+    transitions all the way down, which needs 4-5 times fewer walks than deepest-first."""
+    import collections
+    import random
+    rnd = random.Random(seed)
+    parent = {}
+    dq = collections.deque()
+    for i in g.inits:
+        parent[i] = None
+        dq.append(i)
+    order = []
+    while dq:
+        u = dq.popleft()
+        order.append(u)
+        for ei in g.out.get(u, ()):
+            v = g.edges[ei][2]
+            if v not in parent:
+                parent[v] = (u, ei)
+                dq.append(v)
+    unc = {k: list(v) for k, v in g.out.items()}
+    for k in sorted(unc):
+        rnd.shuffle(unc[k])
+    covered = set()
+    walks = []
+
+    def live(u):
+        lst = unc.get(u)
+        while lst and lst[-1] in covered:
+            lst.pop()
+        return bool(lst)
+
+    def path_to(u):
+        p = []
+        while parent[u] is not None:
+            pu, pe = parent[u]
+            p.append(pe)
+            u = pu
+        p.reverse()
+        return u, p
+
+    def near(u, room):
+        prev = {u: None}
+        q = collections.deque([(u, 0)])
+        n = 0
+        while q and n < budget:
+            x, d = q.popleft()
+            n += 1
+            if d >= room:
+                continue
+            for ei in g.out.get(x, ()):
+                v = g.edges[ei][2]
+                if v in prev:
+                    continue
+                prev[v] = (x, ei)
+                if live(v):
+                    p = []
+                    while prev[v] is not None:
+                        px, pe = prev[v]
+                        p.append(pe)
+                        v = px
+                    p.reverse()
+                    return p
+                q.append((v, d + 1))
+        return None
+
+    for u in order:
+        while live(u):
+            start, walk = path_to(u)
+            covered.update(walk)
+            cur = u
+            first = True
+            while first or len(walk) < max_len:
+                first = False
+                if live(cur):
+                    ei = unc[cur].pop()
+                    covered.add(ei)
+                    walk.append(ei)
+                    cur = g.edges[ei][2]
+                    continue
+                p = near(cur, min(4, max_len - len(walk) - 1))
+                if not p:
+                    break
+                covered.update(p)
+                walk.extend(p)
+                cur = g.edges[p[-1]][2]
+            walks.append(g._mk(start, walk))
+    if len(covered) != g.n_edges():
+        raise MachineryError("covering walks cover %d of %d transitions" % (len(covered), g.n_edges()))
+    return walks
 
 
 def _edge_stats(g):
@@ -171,13 +273,14 @@ def _need(stats, keys, where):
 # harness jobs
 
 HARNESSES = {
-    # key: (package, test, behaviour files it needs)
+    # key: (package, test)
     "noise": ("./p2p/security/noise", "^TestVerifC02Noise$"),
     "tls": ("./p2p/security/tls", "^TestVerifC02TLS$"),
     "psk": ("./p2p/net/pnet", "^TestVerifC02Psk$"),
     "sampled": ("./p2p/transport/tcpreuse/internal/sampledconn", "^TestVerifC02Sampled$"),
     "mux": ("./p2p/muxer/yamux", "^TestVerifC02Mux$"),
     "lazy": ("./p2p/host/basic", "^TestVerifC02LazyMS$"),
+    "stack": ("./p2p/host/basic", "^TestVerifC02Stack$"),
 }
 
 
@@ -193,6 +296,8 @@ def _harness(args):
 
 def _prebuild(args):
     ctx, key = args
+    if key == "stack":
+        return key      # same package as "lazy"
     pkg, _ = HARNESSES[key]
     rc, out = goenv.go_test(ctx, pkg, "^$", timeout=1200)
     if rc != 0:
@@ -207,29 +312,40 @@ def run(ctx):
     tlc.stage(ctx)
     beh_dir = ctx.sub("beh")
     rounds = 6 if thorough else 1
-    env = {"VERIF_C02_ROUNDS": rounds, "VERIF_C02_PAR": 4}
+    stacks = "tcp-noise-yamux,tcp-tls-yamux,tcp-psk-noise-yamux,ws-noise-yamux,quic,webtransport,webrtc-direct"
+    env = {"VERIF_C02_ROUNDS": rounds, "VERIF_C02_PAR": 4, "VERIF_C02_TLS_SHARE": 1 if thorough else 4,
+           "VERIF_C02_MUX_SHARE": 1 if thorough else 2, "VERIF_C02_STACK_SHARE": 1 if thorough else 2,
+           "VERIF_C02_STACKS": stacks}
     keys = list(HARNESSES)
 
     states = trans = 0
     per = {}
-    with cf.ProcessPoolExecutor(max_workers=2) as px, cf.ProcessPoolExecutor(max_workers=2) as pg, \
-            cf.ProcessPoolExecutor(max_workers=3) as pb:
-        # warm the Go build cache while TLC runs
-        fb = [pb.submit(_prebuild, (ctx, k)) for k in keys]
+    # At most 4 TLC workers at any time: the exhaustive runs one after the other with 2 workers, the printing
+    # runs in two lanes with 1 worker each.  The Go test binaries are built meanwhile, and the replay starts as
+    # soon as the behaviours are written (the exhaustive lane may still be running then).
+    with cf.ProcessPoolExecutor(max_workers=1) as px, cf.ProcessPoolExecutor(max_workers=2) as pg, \
+            cf.ProcessPoolExecutor(max_workers=3) as pb, cf.ProcessPoolExecutor(max_workers=len(keys)) as ph:
+        fb = [pb.submit(_prebuild, (ctx, k)) for k in sorted(set(k for k in keys))]
         xname, xconsts = chan_exhaustive(ctx)
-        fx = [px.submit(_exhaustive, (ctx, "C02_MC", "C02_MC.cfg", xname, xconsts, 2, None)),
-              px.submit(_exhaustive, (ctx, "C02_MCMux", "C02_MCMux.cfg", "mux-x", MUX_EXHAUSTIVE, 2, False))]
+        fx = [px.submit(_exhaustive, (ctx, "C02_MC", "C02_MC.cfg", xname, xconsts, 2, False)),
+              px.submit(_exhaustive, (ctx, "C02_MCMux", "C02_MCMux.cfg", "mux-x", mux_exhaustive(ctx), 2, False))]
         fg = []
-        for name, consts in chan_replay(ctx):
-            fg.append(pg.submit(_graph, (ctx, "C02_MC", "C02_MC.cfg", name, consts, beh_dir, 40, None, None)))
+        jobs = [("C02_MC", "C02_MC.cfg", name, consts, False) for name, consts in chan_replay(ctx)]
         for lname, (module, template, quick, thor) in LAYERS.items():
-            consts = thor if thorough else quick
-            deadlock = False if lname in ("mux", "lazy") else None
-            limit = 150000 if lname == "mux" and thorough else None
-            fg.append(pg.submit(_graph, (ctx, module, template, lname + "_a", consts, beh_dir, 40, deadlock, limit)))
+            jobs.append((module, template, lname + "_a", thor if thorough else quick, False if lname in ("mux", "lazy") else None))
+        if thorough:
+            jobs.append(("C02_MCMux", "C02_MCMux.cfg", "mux_b", MUX_B, False))
+        # biggest first so that the two lanes finish together
+        order = {"chan_a": 0, "chan_b": 1, "mux_a": 2, "mux_b": 3}
+        jobs.sort(key=lambda j: order.get(j[2], 9))
+        for module, template, name, consts, deadlock in jobs:
+            fg.append(pg.submit(_graph, (ctx, module, template, name, consts, beh_dir, 40, deadlock, None)))
         gres = [f.result() for f in fg]
         log("C02: graphs and walks done at %.1fs" % ctx.wall())
         [f.result() for f in fb]
+        fh = [ph.submit(_harness, (ctx, k, beh_dir, env)) for k in keys]
+        hres = dict(f.result() for f in fh)
+        log("C02: replay done at %.1fs" % ctx.wall())
         xres = [f.result() for f in fx]
         log("C02: exhaustive runs done at %.1fs" % ctx.wall())
 
@@ -254,10 +370,6 @@ def run(ctx):
         trans += generated
         per[name] = {"states": distinct, "transitions": generated, "tlc_s": wall}
 
-    # replay on the real code, all layers in parallel
-    with cf.ProcessPoolExecutor(max_workers=len(keys)) as ph:
-        hres = dict(f.result() for f in [ph.submit(_harness, (ctx, k, beh_dir, env)) for k in keys])
-    log("C02: replay done at %.1fs" % ctx.wall())
     div = 0
     replayed = steps_exec = distinct = 0
     samples = []
@@ -279,11 +391,18 @@ def run(ctx):
         distinct += res["distinct"]
         samples += (res.get("samples") or [])[:1]
         extras[k] = dict(res.get("extra") or {}, walks=res["replayed"], steps=res["steps"], distinct=res["distinct"])
-        if res["replayed"] == 0:
+        if res["replayed"] == 0 and not res.get("mismatches"):
             raise MachineryError("harness %s replayed nothing" % k)
-    floor = walk_steps * 0.9
-    if not ctx.violations and steps_exec < floor:
-        raise MachineryError("replay executed %d steps for %d walk steps" % (steps_exec, walk_steps))
+    # vacuity: the real lengths must have reached the boundaries, every fault kind must have been applied
+    if not ctx.violations:
+        nz = extras["noise"]
+        for kind in ("flip", "fliplen", "drop", "dup", "swap", "cut", "cuteof", "trunc"):
+            if not nz.get("faults_" + kind):
+                raise MachineryError("no %s fault was applied to a real Noise session" % kind)
+        if not nz.get("noise_real_handshakes"):
+            raise MachineryError("no real Noise handshake was run")
+        if steps_exec < walk_steps:
+            raise MachineryError("replay executed %d steps for %d walk steps" % (steps_exec, walk_steps))
     log("C02: %d states, %d transitions generated, %d replay transitions, %d walks; executed %d walks / %d steps"
         % (states, trans, edges_total, n_walks, replayed, steps_exec))
     cov = evidence.mc_coverage(
@@ -294,9 +413,10 @@ def run(ctx):
         divergences_L2=div, notes=ctx.notes[:10])
     return {"level": "model_checking", "coverage": cov, "assumptions": [
         "byte equality is decided by the harness ledger (position-dependent payload); TLC contributes the path-selection state machine, the nonce discipline, the fault matrix and the behaviours",
-        "bounded models (Tag=2, MaxPT in {2,3}, payload <= %s units); real lengths are boundary-class members chosen by seed (quick) or rotated through all members (thorough)" % xconsts["MaxSent"],
-        "flynn/noise, crypto/tls, go-yamux, go-multistream and the salsa20 stream are trusted dependencies; TLS and yamux run under the L1 ledger only",
-        "ErrDry (the in-memory wire has nothing in flight) stands for a read that would block",
+        "bounded models (Tag=2, MaxPT in {2,3}, payload <= %s units); real lengths are boundary-class members chosen by seed (quick) or rotated through the members (thorough, %d rounds)" % (xconsts["MaxSent"], rounds),
+        "flynn/noise, crypto/tls, go-yamux, go-multistream and the salsa20 stream are trusted dependencies; TLS, yamux and the loopback stacks run under the L1 ledger only",
+        "ErrDry (the in-memory wire has nothing in flight) stands for a read that would block; cloned Noise sessions reuse the keys of one real handshake (1 walk in 32 runs its own)",
+        "a walk that stalls is a violation only if it stalls again when repeated (watchdogs 30 s / 60 s)",
     ]}
 
 
